@@ -18,6 +18,7 @@ RULE = ('(a) every sequence of 1..3 (quick) / 1..4 (thorough) binary operators o
         'checked against an independent recursive-descent recogniser: accept iff it accepts, same tree, rejection only by '
         'BareScriptParserError. Non-trivial: chains mixing >= 2 precedence levels; trees of depth >= 3 containing a group or unary; token '
         'strings of >= 3 tokens. Distinct by expression text.')
+RULE += ' Also: bracketed names containing `\\\\]` followed by parentheses / quotes, number literals beyond the double range, control characters in string literals, non-ASCII identifiers and call names.'
 ASSUMPTIONS = [
     'generated text avoids sign-prefixed number tokens (+5), white space at the edges inside [brackets] and string literals whose last '
     'character is an unescaped backslash (tokenisation of those is not fixed by the property)',
